@@ -111,10 +111,25 @@ Section ListInstr.
   Definition list_ival := list_val ival push_int.
   Definition list_fval := list_val fval push_float.
 
-  (* the position is computed BEFORE load_items runs (which may pop CODE items);
-     PushStack::replace ignores a position that is no longer inside the stack
-     (the record built from the popped items is then dropped) *)
+  (* LIST.SET, repaired code: the position is popped first, then the designated
+     items are taken, then the position is clamped into the CODE stack as it is
+     NOW.  PushStack::replace ignores a position outside the stack (only
+     possible when the CODE stack is empty: the new record is then dropped). *)
   Definition list_set : instr := fun s =>
+    match st_int s with
+    | idx :: r => let s1 := set_int s r in
+                  match load_items s1 with
+                  | Some (items, s2) =>
+                      Ok (set_code s2 (l_replace (st_code s2) (record_pos s2 idx) (mk_record items)))
+                  | None => Ok s1
+                  end
+    | [] => Ok s
+    end.
+
+  (* the code of the pinned tree: the position is clamped BEFORE load_items runs
+     (which may pop CODE items): a stale position replaces a neighbour of the
+     addressed record, or lies outside the stack and the new record is dropped *)
+  Definition list_set_pinned : instr := fun s =>
     match st_int s with
     | idx :: r => let s1 := set_int s r in
                   let pos := record_pos s1 idx in
